@@ -34,7 +34,7 @@ type Pool struct {
 	Args     []string
 	Env      []string
 	mu       sync.Mutex
-	procs    []*proc
+	idle     []*proc // children kept alive between Run calls
 	Restarts int64
 }
 
@@ -102,11 +102,10 @@ func (p *Pool) Run(tasks [][]byte, deadline time.Time, perTask time.Duration,
 		wg.Add(1)
 		go func() {
 			defer wg.Done()
-			var pr *proc
+			pr := p.takeIdle()
 			defer func() {
 				if pr != nil {
-					pr.in.Close()
-					pr.kill()
+					p.putIdle(pr)
 				}
 			}()
 			for {
@@ -146,6 +145,34 @@ func (p *Pool) Run(tasks [][]byte, deadline time.Time, perTask time.Duration,
 		}()
 	}
 	wg.Wait()
+}
+
+func (p *Pool) takeIdle() *proc {
+	p.mu.Lock()
+	defer p.mu.Unlock()
+	if n := len(p.idle); n > 0 {
+		pr := p.idle[n-1]
+		p.idle = p.idle[:n-1]
+		return pr
+	}
+	return nil
+}
+
+func (p *Pool) putIdle(pr *proc) {
+	p.mu.Lock()
+	p.idle = append(p.idle, pr)
+	p.mu.Unlock()
+}
+
+// Close terminates the idle children.
+func (p *Pool) Close() {
+	p.mu.Lock()
+	defer p.mu.Unlock()
+	for _, pr := range p.idle {
+		pr.in.Close()
+		pr.kill()
+	}
+	p.idle = nil
 }
 
 func tail(s string, n int) string {
